@@ -62,5 +62,7 @@ AcceptLemma == (Kind = "nfa" /\ picked = 2) => \A w \in AllW : NfaAccepts(x, w) 
 ClosureLemma == (Kind = "nfa" /\ picked = 2) =>
    \A X \in SUBSET Q : EClosure(x, X) = {q \in Q : \E p \in X : <<q, 0>> \in ReachSet(ConfEdges(x, <<>>), {<<p, 0>>})}
 (* --- Myhill-Nerode: automaton-based vs word-based --- *)
+MooreLemma == (Kind = "dfa" /\ picked = 2) =>
+   MoorePartition(x) = {{q \in Q : StatesEquivalent(x, p, q)} : p \in Q}
 NerodeLemma == (Kind = "dfa" /\ picked = 2) => \A p, q \in Q : StatesEquivalent(x, p, q) <=> StatesEquivalentByWords(x, p, q)
 =============================================================================
